@@ -166,15 +166,27 @@ bool impl_equals(const cbor_item_t* it, const MV& v, std::string& why, const std
   return bad("unknown model kind");
 }
 
+void raw_children(const cbor_item_t* it, std::vector<cbor_item_t*>& out) {
+  switch (it->type) {
+    case CBOR_TYPE_BYTESTRING: case CBOR_TYPE_STRING: {
+      bool def = it->type == CBOR_TYPE_BYTESTRING ? it->metadata.bytestring_metadata.type == _CBOR_METADATA_DEFINITE : it->metadata.string_metadata.type == _CBOR_METADATA_DEFINITE;
+      if (!def && it->data) { const struct cbor_indefinite_string_data* d = (const struct cbor_indefinite_string_data*)it->data; if (d->chunks) for (size_t i = 0; i < d->chunk_count; i++) out.push_back(d->chunks[i]); }
+      break;
+    }
+    case CBOR_TYPE_ARRAY: if (it->data) for (size_t i = 0; i < it->metadata.array_metadata.end_ptr; i++) out.push_back(((cbor_item_t**)it->data)[i]); break;
+    case CBOR_TYPE_MAP: if (it->data) for (size_t i = 0; i < it->metadata.map_metadata.end_ptr; i++) { out.push_back(((struct cbor_pair*)it->data)[i].key); out.push_back(((struct cbor_pair*)it->data)[i].value); } break;
+    case CBOR_TYPE_TAG: if (it->metadata.tag_metadata.tagged_item) out.push_back(it->metadata.tag_metadata.tagged_item); break;
+    default: break;
+  }
+}
+
 void impl_owned_blocks(const cbor_item_t* it, std::vector<const void*>& out) {
   out.push_back(it);
-  switch (cbor_typeof(it)) {
+  switch (it->type) {
     case CBOR_TYPE_BYTESTRING: case CBOR_TYPE_STRING: {
-      bool def = cbor_typeof(it) == CBOR_TYPE_BYTESTRING ? cbor_bytestring_is_definite(it) : cbor_string_is_definite(it);
+      bool def = it->type == CBOR_TYPE_BYTESTRING ? it->metadata.bytestring_metadata.type == _CBOR_METADATA_DEFINITE : it->metadata.string_metadata.type == _CBOR_METADATA_DEFINITE;
       if (def) { if (it->data) out.push_back(it->data); }
-      else {
-        if (it->data) { out.push_back(it->data); const void* ch = ((struct cbor_indefinite_string_data*)it->data)->chunks; if (ch) out.push_back(ch); }
-      }
+      else if (it->data) { out.push_back(it->data); const void* ch = ((const struct cbor_indefinite_string_data*)it->data)->chunks; if (ch) out.push_back(ch); }
       break;
     }
     case CBOR_TYPE_ARRAY: case CBOR_TYPE_MAP: if (it->data) out.push_back(it->data); break;
@@ -186,18 +198,8 @@ static void tree_blocks_rec(const cbor_item_t* it, std::vector<const void*>& out
   if (!it || seen.count(it)) return;
   seen.insert(it); nodes.push_back(it);
   impl_owned_blocks(it, out);
-  switch (cbor_typeof(it)) {
-    case CBOR_TYPE_BYTESTRING:
-      if (cbor_bytestring_is_indefinite(it)) for (size_t i = 0; i < cbor_bytestring_chunk_count(it); i++) tree_blocks_rec(cbor_bytestring_chunks_handle(it)[i], out, nodes, seen);
-      break;
-    case CBOR_TYPE_STRING:
-      if (cbor_string_is_indefinite(it)) for (size_t i = 0; i < cbor_string_chunk_count(it); i++) tree_blocks_rec(cbor_string_chunks_handle(it)[i], out, nodes, seen);
-      break;
-    case CBOR_TYPE_ARRAY: for (size_t i = 0; i < cbor_array_size(it); i++) tree_blocks_rec(cbor_array_handle(it)[i], out, nodes, seen); break;
-    case CBOR_TYPE_MAP: for (size_t i = 0; i < cbor_map_size(it); i++) { tree_blocks_rec(cbor_map_handle(it)[i].key, out, nodes, seen); tree_blocks_rec(cbor_map_handle(it)[i].value, out, nodes, seen); } break;
-    case CBOR_TYPE_TAG: tree_blocks_rec(it->metadata.tag_metadata.tagged_item, out, nodes, seen); break;
-    default: break;
-  }
+  std::vector<cbor_item_t*> ch; raw_children(it, ch);
+  for (auto* c : ch) tree_blocks_rec(c, out, nodes, seen);
 }
 void impl_tree_blocks(const cbor_item_t* it, std::vector<const void*>& out, std::vector<const cbor_item_t*>& nodes) {
   std::set<const cbor_item_t*> seen; tree_blocks_rec(it, out, nodes, seen);
